@@ -124,7 +124,18 @@ def _judge(ctx, root, case, sign, orig_signed, keyid, hk, top_name, top, h, sign
                                    signed.encode('utf8')))
     expect_signed = bool(sign) or (sign is None and orig_signed)
     can_sign = hk in ('secret', 'two', 'late') and keyid != 'wrong'
-    expect = 'plain' if not expect_signed else ('signed' if can_sign else 'failure')
+    longline = False
+    if not orig_signed and sign is True and top_name == 'Manifest' and hk != 'late' \
+            and len(case['skel']['nodes']) % 4 == 1:
+        # an entry line longer than GnuPG covers in a cleartext signature (19993
+        # bytes): the saved message cannot be a signature over exactly the entries,
+        # so signing has to be refused
+        longline = True
+        ctx.count('overlong_line_cases')
+        with open(top, 'a') as f:
+            f.write('DIST %s 1 MD5 %s\n' % ('d' * 21000, 'ab' * 16))
+    expect = 'plain' if not expect_signed else (
+        'signed' if can_sign and not longline else 'failure')
     want_fpr = keys.KEY_FINGERPRINT
     if keyid == 'second':
         want_fpr = home('two').second_fpr
@@ -249,13 +260,20 @@ def _judge(ctx, root, case, sign, orig_signed, keyid, hk, top_name, top, h, sign
         elif outcome[0] == 'gexc':
             ctx.violation('signing-failure-wrong-exception:' + type(outcome[1]).__name__,
                           'signing failure raised %r' % (outcome[1],), case, detail)
+        untouched = False
+        if os.path.exists(top):
+            with open(top, 'rb') as f:
+                untouched = f.read() == top_before
+        if untouched:
+            # (the failed save left the previous Manifest alone)
+            ctx.count('top_level_untouched_after_failure')
         for n, t in texts.items():
-            if t and not is_signed_text(t) and not orig_signed:
+            if t and not is_signed_text(t) and not orig_signed and not untouched:
                 try:
                     ents = mtext.parse(t)
                 except Exception:
                     ents = []
-                if ents and ents != case.get('_orig_top_entries'):
+                if ents:
                     ctx.violation('unsigned-manifest-left-after-failure', 'after the '
                                   'signing failure %r is a plain Manifest with %d '
                                   'entries' % (n, len(ents)), case, detail)
